@@ -107,12 +107,6 @@ func (s *segment) BaseTime() int64 {
 // GetDataFamilies returns data family list by time range, return nil if not match
 func (s *segment) GetDataFamilies(timeRange timeutil.TimeRange) []DataFamily {
 	var result []DataFamily
-	calc := s.interval.Calculator()
-
-	familyQueryTimeRange := timeutil.TimeRange{
-		Start: calc.CalcFamilyStartTime(s.baseTime, calc.CalcFamily(timeRange.Start, s.baseTime)),
-		End:   calc.CalcFamilyStartTime(s.baseTime, calc.CalcFamily(timeRange.End, s.baseTime)),
-	}
 	familyNames := s.kvStore.ListFamilyNames()
 
 	for _, familyName := range familyNames {
@@ -122,8 +116,9 @@ func (s *segment) GetDataFamilies(timeRange timeutil.TimeRange) []DataFamily {
 			continue
 		}
 		family := s.getOrLoadFamily(familyName, familyTime)
-		timeRange := family.TimeRange()
-		if familyQueryTimeRange.Overlap(timeRange) {
+		// compare with the query range itself: a bound that lies outside this segment
+		// has no family number in it (month/year families are calendar days/months).
+		if timeRange.Overlap(family.TimeRange()) {
 			result = append(result, family)
 		}
 	}
